@@ -58,11 +58,15 @@ func (fact *ProposalFact) DecodeJSON(b []byte, enc encoder.Encoder) error {
 		fact.proposer = i
 	}
 
-	hs := make([][2]util.Hash, len(u.Operations))
+	var hs [][2]util.Hash
 
-	for i := range u.Operations {
-		hs[i][0] = u.Operations[i][0].Hash()
-		hs[i][1] = u.Operations[i][1].Hash()
+	if u.Operations != nil { // NOTE keeps nil; empty proposal has nil operations
+		hs = make([][2]util.Hash, len(u.Operations))
+
+		for i := range u.Operations {
+			hs[i][0] = u.Operations[i][0].Hash()
+			hs[i][1] = u.Operations[i][1].Hash()
+		}
 	}
 
 	fact.operations = hs
